@@ -793,69 +793,49 @@ example : Model.Mvp60.BranchOnly Proofs.Mvp60SlWitness.brApp = true ∧ Model.Mv
 
 end Props.C01
 
-/-! ## MVP-6.0 (package R60c): jumps, calls and returns — and why the full clause is false
+/-! ## MVP-6.0 (package R60c): jumps, calls and returns — the safety half of the full clause
 
-`Full_mvp60_regonly_correct` is FALSE (`mvp60_full_regonly_clause_is_false`): `fetchUnit.reset` (called for every jump)
-does not clear `fetchUnit.complete`, which `CPU.isEmpty()` uses to end the run.  A jump within the last instructions of
-the program text that is executed with a hit in the branch target buffer (no flush) while the line of its target is not in
-L1I leaves the machine empty — with `complete` still set from the fetch past the end — for the ~310 ticks of the memory
-access: `Run` ends "past the end" in the middle of the program (R60-defect-1; witness `Proofs.Mvp60JumpWitness.earlyApp`,
-reproduced on the Go code of mvp6-0 and mvp6-1 at every parallelism).
+History: while looking for the invariant on `fetchUnit.complete` the statement `Full_mvp60_regonly_correct` turned out to be
+FALSE of the machine as it was (R60-defect-1): `fetchUnit.reset` (called for every jump) did not clear `complete`, which
+`CPU.isEmpty()` uses to end the run; a jump within the last instructions of the program text, executed with a hit in the
+branch target buffer (no flush) while the line of its target was not in L1I, left the machine empty — with `complete` still
+set from the fetch past the end — for the ~310 ticks of the memory access, and `Run` ended "past the end" in the middle of
+the program (witness `Proofs.Mvp60JumpWitness.earlyApp`; mvp6-0 and mvp6-1 at every parallelism; the model agreed tick for
+tick, and `¬ Full_mvp60_regonly_correct` was a theorem).  Fixed in /repo commit 52aa070 (`reset` clears `complete`, as
+MVP-5 does), mirrored in `Model.Mvp60.FetchUnit.reset`.
 
-What IS proved, for every number of units and the whole class `Model.Mvp60.RegOnlyWf` (register-only programs with
-conditional branches, `j`, `jal`, `jalr`, `ret`; labels well-formed): `mvp60_regonly_correct` — a run of the model that ends
-with `ret` or with the defined error agrees with the specification; a run that ends "past the end" has the registers and
-memory of a state of the unpipelined run (nothing from a wrong path, nothing fetched behind an unresolved jump is ever
-written), and for programs without jumps that state is the final one (`mvp60_branchonly_correct_all_units`). -/
+What is proved now, for every number of units and the whole class `Model.Mvp60.RegOnlyWf` (register-only programs with
+conditional branches, `j`, `jal`, `jalr`, `ret`; labels well-formed): `mvp60_regonly_correct` — the SAFETY half of
+`Full_mvp60_regonly_correct`: if the model run ends and the specification run ends within its fuel, they end the same way
+with the specification's registers and memory.  `Props.C07.mvp60_regonly_never_panics`: the run never ends with a Go panic.
+Not proved: that the run ends within some tick budget. -/
 namespace Props.C01
 
-/-- **MVP-6.0 ends a run prematurely (R60-defect-1).**  On the register-only program `Proofs.Mvp60JumpWitness.earlyApp`
-(a member of `RegOnly` and `RegOnlyWf`) the unpipelined machine returns with `s0 = 4`; the MVP-6.0 model with one and with two
-execute/write units ends "past the end" with `s0 = 2` (registers `ra s0 a0 t0 t1 t2`). -/
-theorem mvp60_premature_end :
+/-- **R60-defect-1 is fixed: the witness program runs to its `ret`.**  On the register-only program
+`Proofs.Mvp60JumpWitness.earlyApp` (a member of `RegOnly` and `RegOnlyWf`) the unpipelined machine returns with `s0 = 4`, and
+so does the MVP-6.0 model with one and with two execute/write units (registers `ra s0 a0 t0 t1 t2`).  Before /repo commit
+52aa070 (`fetchUnit.reset` did not clear `complete`) machine and model ended "past the end" after 12616 ticks with `s0 = 2`. -/
+theorem mvp60_premature_end_fixed :
     Model.Mvp60.RegOnly Proofs.Mvp60JumpWitness.earlyApp = true ∧
     Proofs.Mvp60SlWitness.obsR (runMvp1 Proofs.Mvp60JumpWitness.earlyApp ⟨Proofs.Mvp60SlWitness.ctx0, 0⟩ 100).halt
         (runMvp1 Proofs.Mvp60JumpWitness.earlyApp ⟨Proofs.Mvp60SlWitness.ctx0, 0⟩ 100).final.ctx =
       (some .ret, [0#32, 4#32, 0#32, 4#32, 1#32, 0#32]) ∧
-    Proofs.Mvp60SlWitness.obsR (Model.Mvp60.run Proofs.Mvp60JumpWitness.earlyApp Proofs.Mvp60SlWitness.ctx0 1 1 20000).halt
-        (Model.Mvp60.run Proofs.Mvp60JumpWitness.earlyApp Proofs.Mvp60SlWitness.ctx0 1 1 20000).final.ctx =
-      (some .offEnd, [0#32, 2#32, 0#32, 4#32, 0#32, 0#32]) ∧
-    Proofs.Mvp60SlWitness.obsR (Model.Mvp60.run Proofs.Mvp60JumpWitness.earlyApp Proofs.Mvp60SlWitness.ctx0 2 2 20000).halt
-        (Model.Mvp60.run Proofs.Mvp60JumpWitness.earlyApp Proofs.Mvp60SlWitness.ctx0 2 2 20000).final.ctx =
-      (some .offEnd, [0#32, 2#32, 0#32, 4#32, 0#32, 0#32]) :=
+    Proofs.Mvp60SlWitness.obsR (Model.Mvp60.run Proofs.Mvp60JumpWitness.earlyApp Proofs.Mvp60SlWitness.ctx0 1 1 60000).halt
+        (Model.Mvp60.run Proofs.Mvp60JumpWitness.earlyApp Proofs.Mvp60SlWitness.ctx0 1 1 60000).final.ctx =
+      (some .ret, [0#32, 4#32, 0#32, 4#32, 1#32, 0#32]) ∧
+    Proofs.Mvp60SlWitness.obsR (Model.Mvp60.run Proofs.Mvp60JumpWitness.earlyApp Proofs.Mvp60SlWitness.ctx0 2 2 60000).halt
+        (Model.Mvp60.run Proofs.Mvp60JumpWitness.earlyApp Proofs.Mvp60SlWitness.ctx0 2 2 60000).final.ctx =
+      (some .ret, [0#32, 4#32, 0#32, 4#32, 1#32, 0#32]) ∧
+    12616 < (Model.Mvp60.run Proofs.Mvp60JumpWitness.earlyApp Proofs.Mvp60SlWitness.ctx0 1 1 60000).ticks :=
   ⟨Proofs.Mvp60JumpWitness.early_class.2, Proofs.Mvp60JumpWitness.early_seq, Proofs.Mvp60JumpWitness.early_p1,
-   Proofs.Mvp60JumpWitness.early_p2⟩
-
-/-- **the full clause of package R60 is false**: the specification run of `earlyApp` ends with `ret`, the run of the MVP-6.0
-model (one unit) ends "past the end" -/
-theorem mvp60_full_regonly_clause_is_false : ¬ Full_mvp60_regonly_correct := by
-  intro hfull
-  have hw : WfApp Proofs.Mvp60JumpWitness.earlyApp := Proofs.Mvp60JumpWitness.early_wf
-  have hR : Rel Proofs.Mvp60SlWitness.ctx0 { regs := Array.replicate 32 0#32, mem := Array.replicate 64 0#8 } :=
-    { rat := rfl, tx := rfl,
-      regs := by
-        intro r
-        simp only [Proofs.Mvp60SlWitness.ctx0, GoMap.get1, GoMap.get, GoMap.find?, Spec.Machine.rf, List.lookup, Array.getD_eq_getD_getElem?]
-        by_cases h : r < 32 <;> simp [h] <;> rfl,
-      size := by simp, zero := by simp [Spec.Machine.rf], mem := by simp [Proofs.Mvp60SlWitness.ctx0], memSmall := by simp }
-  have h1 := (hfull _ hw Proofs.Mvp60JumpWitness.early_class.2 _ _ hR
-    (fun r => by simp [Proofs.Mvp60SlWitness.ctx0, GoMap.get1, GoMap.get, GoMap.find?]) 1 (by decide) (by decide) 200).1 20000 .offEnd
-    Proofs.Mvp60JumpWitness.early_p1_halt
-    (by intro w hc; cases hc)
-  have hstop : (Spec.run (specProg Proofs.Mvp60JumpWitness.earlyApp)
-      { regs := Array.replicate 32 0#32, mem := Array.replicate 64 0#8 } 200).stop = .ret := Proofs.Mvp60JumpWitness.early_spec
-  unfold Agree4 at h1
-  rw [hstop] at h1
-  exact absurd h1.1 (by decide)
+   Proofs.Mvp60JumpWitness.early_p2, Proofs.Mvp60JumpWitness.early_p1_ticks⟩
 
 /-- **C01 for MVP-6.0 on register-only programs with branches, jumps, calls and `ret` (safety), every number `K` of
-execute and write units.**  Every parsed program of `Model.Mvp60.RegOnlyWf`, every initial state related to a specification
-machine with fresh scoreboards and `sequenceID = 0`, every fuel and tick budget.  (1) If the model run ends with `ret` or
-with an error value and the specification run ends within its fuel, they end the same way, after `ret` with the specification's
-registers and memory.  (2) If the model run ends "past the end" and the specification run is well-formed, the model's final
-registers and memory are those of the unpipelined machine after some number `k` of its steps — a state of the sequential
-run: no result of a wrong-path instruction and nothing fetched behind an unresolved jump has been written; by R60-defect-1
-it need not be the final state (`mvp60_premature_end`).
+execute and write units** — the safety half of `Full_mvp60_regonly_correct` for the class `Model.Mvp60.RegOnlyWf`.  Every
+parsed program of the class, every initial state related to a specification machine with fresh scoreboards and
+`sequenceID = 0`, every fuel and tick budget: if the model run ends (`ret`, past the last instruction, or an error value) and
+the specification run ends within its fuel, they end the same way, and after `ret` / past the end the final registers and
+memory of the model are the specification's.
 
 How a jump goes through the machine: the decode unit closes when it decodes it (the jump is the youngest runner, the fetch
 unit fetches on behind it onto the decode bus, which nobody reads); the execute unit that executes it resets the fetch unit
@@ -864,65 +844,54 @@ it also signals a flush (drain as for a branch; the jump's own result is kept). 
 then the results of that tick may carry sequence ids (= pcs) greater than the next pc (a backward jump); they have left the
 write bus before the next instruction can execute (`Proofs.Mvp60Sl.Mid.stale`), so a later flush never drops them.
 `jalr` targets: the specification checks them (`Spec.targetOk`), `Proofs.Mvp60Sl.tgtOk_of_spec` carries that to every
-state the unpipelined machine reaches. -/
+state the unpipelined machine reaches.  The end of the run: `fetchUnit.complete` is set only by a fetch past the last
+instruction and cleared by `reset` and `flush`, so an empty machine with `complete` set has really run off the end. -/
 theorem mvp60_regonly_correct (app : App) (hw : WfApp app) (hc : Model.Mvp60.RegOnlyWf app = true)
     (ctx : Model.Context) (m : Spec.Machine) (hR : Rel ctx m) (hpw : ∀ r, GoMap.get1 ctx.PendingWriteRegisters r = 0)
     (hseq : ctx.sequenceID = 0) (K fuel ticks : Nat) (hk : Halt)
     (hh : (Model.Mvp60.run app ctx K K ticks).halt = some hk) (hnp : ∀ w, hk ≠ .panic w) :
-    (hk ≠ .offEnd → Agree4 (Spec.run (specProg app) m fuel) hk (Model.Mvp60.run app ctx K K ticks).final.ctx) ∧
-    (hk = .offEnd → (∀ why, (Spec.run (specProg app) m fuel).stop ≠ .notWf why) →
-      ∃ k a, Proofs.Mvp4.seqIter app k ⟨ctx, 0#32⟩ = some a ∧
-        (Model.Mvp60.run app ctx K K ticks).final.ctx.Registers = a.ctx.Registers ∧
-        (Model.Mvp60.run app ctx K K ticks).final.ctx.Memory = a.ctx.Memory) := by
+    Agree4 (Spec.run (specProg app) m fuel) hk (Model.Mvp60.run app ctx K K ticks).final.ctx := by
   have hj := Proofs.Mvp60Sl.jclass_of_regOnlyWf app hc
   have hall : ∀ i ∈ app.instrs, Model.Mvp60.jInstr app i = true := by
     have := hj
     simp only [Model.Mvp60.JClass, Bool.and_eq_true, List.all_eq_true] at this
     exact this.1
   have hpj : Proofs.Mvp60Sl.ProgJ app := ⟨hw.small, hw.nofwd, hj⟩
-  constructor
-  · intro hne
-    have h1 := mvp1_correct app hw ctx m hR fuel
-    unfold Agree at h1
-    unfold Agree4
-    cases hstop : (Spec.run (specProg app) m fuel).stop with
-    | notWf w => trivial
-    | ret =>
-      have hT := Proofs.Mvp60Sl.tgtOk_of_spec app hw hall ctx m hR fuel (by intro why hc'; rw [hstop] at hc'; cases hc')
-      obtain ⟨n, e1, e2⟩ := Proofs.Mvp60Sl.mvp60_j_refines_mvp1 app hpj ctx ⟨hR.rat, hR.tx, hpw⟩ K ticks hk (Or.inl hseq) hT hh hnp
-        (fun h => absurd h hne)
-      rw [hstop] at h1
-      simp only at h1 ⊢
-      obtain ⟨u1, u2⟩ := Proofs.Mvp4.run_halt_unique mvp1Fetch mvp1Fetch app ⟨ctx, 0#32⟩ n fuel hk .ret e1 h1.1
-      subst u1
-      obtain ⟨f1, f2⟩ := e2 (by intro hc'; cases hc')
-      have hfin : (runMvp1 app ⟨ctx, 0#32⟩ n).final = (runMvp1 app ⟨ctx, 0#32⟩ fuel).final := u2
-      refine ⟨rfl, fun r => ?_, ?_⟩
-      · rw [f1, hfin]; exact h1.2.1.regs r
-      · rw [f2, hfin]; exact h1.2.1.mem
-    | offEnd =>
-      have hT := Proofs.Mvp60Sl.tgtOk_of_spec app hw hall ctx m hR fuel (by intro why hc'; rw [hstop] at hc'; cases hc')
-      obtain ⟨n, e1, e2⟩ := Proofs.Mvp60Sl.mvp60_j_refines_mvp1 app hpj ctx ⟨hR.rat, hR.tx, hpw⟩ K ticks hk (Or.inl hseq) hT hh hnp
-        (fun h => absurd h hne)
-      rw [hstop] at h1
-      simp only at h1 ⊢
-      obtain ⟨u1, u2⟩ := Proofs.Mvp4.run_halt_unique mvp1Fetch mvp1Fetch app ⟨ctx, 0#32⟩ n fuel hk .offEnd e1 h1.1
-      exact absurd u1 hne
-    | error er =>
-      have hT := Proofs.Mvp60Sl.tgtOk_of_spec app hw hall ctx m hR fuel (by intro why hc'; rw [hstop] at hc'; cases hc')
-      obtain ⟨n, e1, e2⟩ := Proofs.Mvp60Sl.mvp60_j_refines_mvp1 app hpj ctx ⟨hR.rat, hR.tx, hpw⟩ K ticks hk (Or.inl hseq) hT hh hnp
-        (fun h => absurd h hne)
-      rw [hstop] at h1
-      simp only at h1 ⊢
-      exact (Proofs.Mvp4.run_halt_unique mvp1Fetch mvp1Fetch app ⟨ctx, 0#32⟩ n fuel hk .err e1 h1.1).1
-  · intro hoff hwf
-    subst hoff
-    have hT := Proofs.Mvp60Sl.tgtOk_of_spec app hw hall ctx m hR fuel hwf
-    have hpost := Proofs.Mvp60Sl.mvp60_j_runpost app hpj ctx ⟨hR.rat, hR.tx, hpw⟩ K ticks (Or.inl hseq) hT
-    unfold Proofs.Mvp60Sl.RunPost at hpost
-    rw [hh] at hpost
-    obtain ⟨k, a, hit, _, hf1, hf2⟩ := hpost
-    exact ⟨k, a, hit, hf1, hf2⟩
+  have h1 := mvp1_correct app hw ctx m hR fuel
+  unfold Agree at h1
+  unfold Agree4
+  cases hstop : (Spec.run (specProg app) m fuel).stop with
+  | notWf w => trivial
+  | ret =>
+    have hT := Proofs.Mvp60Sl.tgtOk_of_spec app hw hall ctx m hR fuel (by intro why hc'; rw [hstop] at hc'; cases hc')
+    obtain ⟨n, e1, e2⟩ := Proofs.Mvp60Sl.mvp60_j_refines_mvp1 app hpj ctx ⟨hR.rat, hR.tx, hpw⟩ K ticks hk (Or.inl hseq) hT hh hnp
+    rw [hstop] at h1
+    simp only at h1 ⊢
+    obtain ⟨u1, u2⟩ := Proofs.Mvp4.run_halt_unique mvp1Fetch mvp1Fetch app ⟨ctx, 0#32⟩ n fuel hk .ret e1 h1.1
+    subst u1
+    obtain ⟨f1, f2⟩ := e2 (by intro hc'; cases hc')
+    have hfin : (runMvp1 app ⟨ctx, 0#32⟩ n).final = (runMvp1 app ⟨ctx, 0#32⟩ fuel).final := u2
+    refine ⟨rfl, fun r => ?_, ?_⟩
+    · rw [f1, hfin]; exact h1.2.1.regs r
+    · rw [f2, hfin]; exact h1.2.1.mem
+  | offEnd =>
+    have hT := Proofs.Mvp60Sl.tgtOk_of_spec app hw hall ctx m hR fuel (by intro why hc'; rw [hstop] at hc'; cases hc')
+    obtain ⟨n, e1, e2⟩ := Proofs.Mvp60Sl.mvp60_j_refines_mvp1 app hpj ctx ⟨hR.rat, hR.tx, hpw⟩ K ticks hk (Or.inl hseq) hT hh hnp
+    rw [hstop] at h1
+    simp only at h1 ⊢
+    obtain ⟨u1, u2⟩ := Proofs.Mvp4.run_halt_unique mvp1Fetch mvp1Fetch app ⟨ctx, 0#32⟩ n fuel hk .offEnd e1 h1.1
+    subst u1
+    obtain ⟨f1, f2⟩ := e2 (by intro hc'; cases hc')
+    have hfin : (runMvp1 app ⟨ctx, 0#32⟩ n).final = (runMvp1 app ⟨ctx, 0#32⟩ fuel).final := u2
+    refine ⟨rfl, fun r => ?_, ?_⟩
+    · rw [f1, hfin]; exact h1.2.1.regs r
+    · rw [f2, hfin]; exact h1.2.1.mem
+  | error er =>
+    have hT := Proofs.Mvp60Sl.tgtOk_of_spec app hw hall ctx m hR fuel (by intro why hc'; rw [hstop] at hc'; cases hc')
+    obtain ⟨n, e1, e2⟩ := Proofs.Mvp60Sl.mvp60_j_refines_mvp1 app hpj ctx ⟨hR.rat, hR.tx, hpw⟩ K ticks hk (Or.inl hseq) hT hh hnp
+    rw [hstop] at h1
+    simp only at h1 ⊢
+    exact (Proofs.Mvp4.run_halt_unique mvp1Fetch mvp1Fetch app ⟨ctx, 0#32⟩ n fuel hk .err e1 h1.1).1
 
 /-- Non-vacuity: two members of `RegOnlyWf` with jumps — `Proofs.Mvp60SlWitness.loopApp` (a call `jal` and a return `jalr`,
 a loop) on two units, `Proofs.Mvp60JumpWitness.jloopApp` (a loop closed by a backward `j`, executed once without and once
